@@ -103,6 +103,32 @@ class Ctx:
             self.bad(rid, anchor, getattr(anchor, "node", None), f"{fn.__name__}:fails",
                      f"{fn.__name__}: the interpreted code fails with {type(e).__name__}: {e}")
 
+    def confidence(self, fn, decided_by, what, hard=lambda f: False):
+        """run a rule that reads the TEXT of the code and can therefore only add confidence to behavioural rules (`decided_by`, already
+        run on this context).  Its findings are reported when they are `hard` (interface facts) or when a deciding rule found something
+        too; otherwise they become a note and their obligations are recorded as inconclusive."""
+        scratch = Ctx(self.prog, self.pid, self.tier)
+        semantic = any(f.rule in decided_by for f in self.findings)
+        try:
+            fn(self.prog, scratch)
+        except AnalysisError as e:
+            self.notes.append(f"{what}: not applicable to the current form of the code ({e}); behaviour decided by {', '.join(decided_by)}")
+            return
+        soft = [f for f in scratch.findings if not hard(f)]
+        for f in scratch.findings:
+            if f not in soft or semantic:
+                self.findings.append(f)
+        for o in scratch.obligations:
+            if not o["ok"] and not semantic and any(" ".join(str(f.message).split()) == o["what"] for f in soft):
+                o = dict(o, ok=True, what=f"textual form not recognised; behaviour decided by {', '.join(decided_by)}: " + o["what"])
+            self.obligations.append(o)
+        self.minimums.update(scratch.minimums)
+        self.facts.extend(scratch.facts)
+        self.notes.extend(scratch.notes)
+        if soft and not semantic:
+            self.notes.append(f"{what}: the text is not in the form these rules read (" + "; ".join(f.message[:70] for f in soft[:3])
+                              + f") while {', '.join(decided_by)} hold on every evaluated case: treated as a change of form, not of behaviour")
+
     def need(self, cond, msg):
         """Fail closed: the analysis does not understand the program."""
         if not cond:
